@@ -271,4 +271,4 @@ func (q *Req) DescribeProgs() []string {
 
 // OpNames for reports.
 var OpNames = []string{"yield", "writeHeader", "write", "flush", "next", "nextSwallow", "cancel", "mapExtra", "seeExtra", "panic", "echo",
-	"mark", "checkMark", "setHeader", "before", "render", "redirect", "status", "cookie", "seeSvc", "seeHeaders", "mapIface", "seeIface", "invoke", "apply", "seeNamer", "httpError", "hijack", "copy", "setContentType", "setContentLength", "expireCtx", "mapOwnWriter", "seePath", "seeBody", "mapReturnHandler", "mutQuery", "replaceCtx"}
+	"mark", "checkMark", "setHeader", "before", "render", "redirect", "status", "cookie", "seeSvc", "seeHeaders", "mapIface", "seeIface", "invoke", "apply", "seeNamer", "httpError", "hijack", "copy", "nestedServe", "setContentType", "setContentLength", "expireCtx", "mapOwnWriter", "seePath", "seeBody", "mapReturnHandler", "mutQuery", "replaceCtx"}
